@@ -146,6 +146,11 @@ func runDagCheck(c *RunCtx) {
 			}
 		}
 	}
+	planned := map[string]int{}
+	for _, u := range units {
+		planned[u.pname]++
+	}
+	res.Bounds["scenarios_planned_per_pass"] = planned // a pass is fully covered iff its <pass>_scenarios_completed counter equals this number
 	// heaviest first, so that dynamic claiming packs well
 	sort.SliceStable(units, func(i, j int) bool {
 		wi := (units[i].pass.K*2+units[i].pass.D)*10 + units[i].sc.N
@@ -193,6 +198,7 @@ func runDagCheck(c *RunCtx) {
 				}
 				continue
 			}
+			t0u, evals0 := time.Now(), res.Evaluations
 			kb, db := pass.K, pass.D
 			if sc.N >= 4 && kb > 2 {
 				kb = 2
@@ -208,10 +214,12 @@ func runDagCheck(c *RunCtx) {
 			outcomes := map[string]bool{}
 			var cnt dagh.Counters
 			found := false
+			complete := true
 			// iterate the schedule bound so that the first counterexample has the fewest deviations
 			for k := 0; k <= kb && !found; k++ {
 				if c.expired() {
 					res.Capped = true
+					complete = false
 					break
 				}
 				final := k == kb
@@ -245,6 +253,7 @@ func runDagCheck(c *RunCtx) {
 					res.States += ex.Stats.NewPoints
 					if ex.Stats.Capped {
 						res.Capped = true
+						complete = false
 					}
 				}
 				if ex.ToolError != "" {
@@ -276,7 +285,10 @@ func runDagCheck(c *RunCtx) {
 				}
 			}
 			if os.Getenv("VERIF_DEBUG") != "" {
-				fmt.Fprintf(os.Stderr, "DBG %s execs=%d %s\n", pname, res.Counters[pname+"_executions"], sc)
+				fmt.Fprintf(os.Stderr, "DBG %s execs=%d secs=%.2f %s\n", pname, res.Evaluations-evals0, time.Since(t0u).Seconds(), sc)
+			}
+			if complete {
+				res.count(pname+"_scenarios_completed", 1)
 			}
 			res.Distinct += int64(len(outcomes))
 			if len(outcomes) > 1 {
